@@ -121,6 +121,15 @@ pub fn run_input<K: Kmer + Send + Sync + serde::Serialize + serde::de::Deseriali
     }
     if w.export {
         ev_export::<K>(sink, inp, &nodes, &w.tmpdir);
+        // the graph the library builds when the table is NOT pruned first (filter_kmers with a threshold, then
+        // compress_kmers_with_hash): extension bits towards dropped k-mers survive as dangling extensions
+        // (when nothing dangles by itself, every third k-mer is dropped from the table with the others' extensions kept)
+        let holed: Vec<Row> = if raw != pruned { raw.clone() } else { raw.iter().enumerate().filter(|(i, _)| i % 3 != 1).map(|(_, x)| x.clone()).collect() };
+        if holed.len() >= 2 && r.chance(1, 2) {
+            if let Ok(un) = guard(|| project_base(&compress_rows::<K>(&holed, inp.stranded, inp.mode, "hash"))) {
+                ev_export::<K>(sink, inp, &un, &w.tmpdir);
+            }
+        }
     }
     if w.serde {
         ev_serde::<K>(sink, r, inp, &nodes);
